@@ -367,6 +367,19 @@ def all_jobs():
                   props=['C01', 'C02', 'C05', 'C09', 'C17'], pretty='bloc::LETStatement::doit', canaries=['normal', 'exceptional'], unwind=3,
                   unwind_why='Value::deref_value() pointer chase (complete: an iterator points to an element, never to a pointer)',
                   structs=DEFAULT_STRUCTS + [STD_STRING, 'bloc::Context', 'bloc::Symbol', 'bloc::Context::MemorySlot', 'bloc::VariableExpression', 'bloc::LETStatement', 'bloc::Statement']))
+    J.append(dict(id='ctx_saveReturned', src='blocc/context.cpp', contract='ctx_returned.c', enforce='_ZN4bloc7Context12saveReturnedERNS_5ValueE', roots=['_ZN4bloc7Context12saveReturnedERNS_5ValueE'],
+                  replace=[V_MOVE_CTOR], cut=['_ZN4bloc5Value4swapERS0_', V_MOVE_CTOR, V_CLEAR, V_CLONE, RTE_CTOR, RTE_CTOR_S], defines=['JOB_SAVE'],
+                  props=['C01', 'C05', 'C08', 'C17'], pretty='bloc::Context::saveReturned', canaries=['normal'], structs=DEFAULT_STRUCTS + [STD_STRING, 'bloc::Context']))
+    J.append(dict(id='stmt_return_doit', src='blocc/statement_return.cpp', contract='ctx_returned.c', enforce='_ZNK4bloc15RETURNStatement4doitERNS_7ContextE', roots=['_ZNK4bloc15RETURNStatement4doitERNS_7ContextE'],
+                  replace=[VCALL_VALUE], cut=[VCALL_VALUE, '_ZN4bloc7Context12saveReturnedERNS_5ValueE', RTE_CTOR, RTE_CTOR_S], defines=['JOB_RETURN'],
+                  props=['C01', 'C07', 'C08'], pretty='bloc::RETURNStatement::doit', canaries=['normal', 'exceptional'], structs=DEFAULT_STRUCTS + [STD_STRING, 'bloc::Context', 'bloc::RETURNStatement', 'bloc::Statement']))
+    J.append(dict(id='ctx_unstackControl', src='blocc/context.cpp', contract='ctx_unstack.c', enforce='_ZN4bloc7Context14unstackControlEv', roots=['_ZN4bloc7Context14unstackControlEv'],
+                  replace=[], cut=[RTE_CTOR, RTE_CTOR_S], props=['C01', 'C06', 'C07'], pretty='bloc::Context::unstackControl', canaries=['normal'],
+                  structs=DEFAULT_STRUCTS + [STD_STRING, 'bloc::Context', 'bloc::Context::Control', 'bloc::Controller']))
+    for jid, mg, df, cls in (('stmt_break_doit', '_ZNK4bloc14BREAKStatement4doitERNS_7ContextE', 'JOB_BREAK', 'BREAKStatement'), ('stmt_continue_doit', '_ZNK4bloc17CONTINUEStatement4doitERNS_7ContextE', 'JOB_CONTINUE', 'CONTINUEStatement')):
+        J.append(dict(id=jid, src='blocc/parse_statement.cpp', contract='stmt_break.c', enforce=mg, roots=[mg], replace=['_ZN4bloc7Context10topControlEv'], defines=[df],
+                      cut=['_ZN4bloc7Context10topControlEv', RTE_CTOR, RTE_CTOR_S], props=['C01', 'C06'], pretty='bloc::%s::doit' % cls, canaries=['normal'],
+                      structs=DEFAULT_STRUCTS + ['bloc::Symbol', 'bloc::Context', 'bloc::Executable', 'bloc::' + cls, 'bloc::Statement', 'bloc::Controller']))
     mg = '_ZN4bloc7Context5purgeEv'
     PURGE_CUT = [V_CLEAR, '_ZN4bloc14FunctorManagerC1ERNS_7ContextE', '_ZN4bloc14FunctorManagerD1Ev', '_ZN4bloc14FunctorManagerC2ERNS_7ContextE', '_ZN4bloc14FunctorManagerD2Ev', '_ZN4bloc7Context4Pool5purgeEv']
     J.append(dict(id='ctx_purge', src='blocc/context.cpp', contract='ctx_purge.c', enforce=mg, roots=[mg], replace=[], cut=PURGE_CUT,
